@@ -418,6 +418,17 @@ impl PendingEntryList {
         let id = entry.id;
         let consumer = entry.consumer.clone();
         
+        // An ID that is already pending moves to the new owner: take it out of the
+        // previous owner's list first, otherwise it is listed twice (or under both)
+        if let Some(old_owner) = self.entries_by_id.get(&id).map(|e| e.consumer.clone()) {
+            if let Some(old_entries) = self.entries_by_consumer.get_mut(&old_owner) {
+                old_entries.retain(|&x| x != id);
+                if old_entries.is_empty() {
+                    self.entries_by_consumer.remove(&old_owner);
+                }
+            }
+        }
+        
         // Add to ID index
         self.entries_by_id.insert(id, entry);
         
